@@ -2078,21 +2078,19 @@ let is_arithmetic n0 =
 let is_aggregation n0 =
   existsb (fun o -> op_in o aggregation_ops) (get_operators n0)
 
-(** val is_single_feature : node -> bool result **)
+(** val is_single_feature : node -> bool **)
 
 let is_single_feature n0 =
   if is_term n0
-  then Ok true
+  then true
   else if data_is NOT n0
-       then (match fld (n_left n0) with
-             | Ok a ->
-               if is_term a
-               then Ok true
-               else (match fld (n_right n0) with
-                     | Ok b -> Ok (is_term b)
-                     | Err e -> Err e)
-             | Err e -> Err e)
-       else Ok false
+       then (match n_left n0 with
+             | Some a -> is_term a
+             | None ->
+               (match n_right n0 with
+                | Some b -> is_term b
+                | None -> false))
+       else false
 
 (** val neg_of_term : node -> bool result **)
 
@@ -2139,7 +2137,7 @@ let is_requires n0 =
 
 let is_excludes n0 =
   if is_binary_op n0
-  then if (||) (data_is EXCLUDES n0) (data_is XOR n0)
+  then if data_is EXCLUDES n0
        then (match fld (n_left n0) with
              | Ok a ->
                if is_term a
@@ -2264,21 +2262,26 @@ let rec existsM f = function
 (** val is_pseudocomplex : node -> bool result **)
 
 let is_pseudocomplex n0 =
-  if negb (is_logical n0)
-  then Ok false
-  else (match split_asts n0 with
-        | Ok l ->
-          if Nat.ltb (S O) (length l) then forallM is_simple l else Ok false
-        | Err e -> Err e)
+  match is_complex n0 with
+  | Ok a ->
+    if a
+    then (match split_asts n0 with
+          | Ok l -> forallM is_simple l
+          | Err e -> Err e)
+    else Ok false
+  | Err e -> Err e
 
 (** val is_strictcomplex : node -> bool result **)
 
 let is_strictcomplex n0 =
-  if negb (is_logical n0)
-  then Ok false
-  else (match split_asts n0 with
-        | Ok l -> existsM is_complex l
-        | Err e -> Err e)
+  match is_complex n0 with
+  | Ok a ->
+    if a
+    then (match split_asts n0 with
+          | Ok l -> existsM is_complex l
+          | Err e -> Err e)
+    else Ok false
+  | Err e -> Err e
 
 (** val left_right : node -> (ndata * ndata) result **)
 
@@ -3703,7 +3706,7 @@ let op_ctcq n0 =
       ('a'::('g'::('g'::('r'::('e'::('g'::('a'::('t'::('i'::('o'::('n'::[])))))))))))
       ((e_bool (is_aggregation n0)) :: [])) :: ((e_tag
                                                   ('s'::('i'::('n'::('g'::('l'::('e'::[]))))))
-                                                  ((e_rbool
+                                                  ((e_bool
                                                      (is_single_feature n0)) :: [])) :: (
     (e_tag ('r'::('e'::('q'::('u'::('i'::('r'::('e'::('s'::[]))))))))
       ((e_rbool (is_requires n0)) :: [])) :: ((e_tag
